@@ -22,6 +22,9 @@ var panicLine = regexp.MustCompile(`(?m)^(panic: .*|fatal error: .*)$`)
 // outcomeProblem classifies the form of one outcome. "" = acceptable.
 // class is a short stable word used in signatures.
 func outcomeProblem(r *runner.Result) (class, msg string) {
+	if r.Blocked {
+		return "hang", "never finishes: the process is asleep and consumes no CPU any more (deadlock)"
+	}
 	if r.CPUHang() {
 		return "hang", "exceeded the CPU-time limit"
 	}
@@ -617,6 +620,16 @@ func nonsenseCatalogue(c *core.Ctx) {
 		}
 		for _, a := range it.cmds {
 			cases = append(cases, ncase{it.name, "command", "", a})
+		}
+	}
+	// two kinds of nonsense at once: every bad command line on every empty document. (`write parse` and
+	// `write conv` do not have to refuse an empty document by themselves, and a flag that overrides the
+	// first instance has nothing to be applied to there - so only command lines that are wrong on their
+	// own, or commands that must refuse the empty piece anyway, are listed.)
+	emptyDocs := []string{"", "[]\n", "# nothing\n", "null\n", "---\n"}
+	for _, bad := range [][]string{{"write", "conv", "-c", "bogus"}, {"write", "conv", "-c", "cmt,bogus"}, {"write", "conv"}, {"write", "--velocity", "xx"}, {"write", "--key", "G#"}, {"write", "event", "--meter", "4/0"}, {"write", "--track", "0"}} {
+		for _, d := range emptyDocs {
+			cases = append(cases, ncase{"bad command line on an empty piece", "yaml", d, bad})
 		}
 	}
 	c.Extra("nonsense_cases", len(cases))
